@@ -33,7 +33,7 @@ Definition offending (pr : proto) (st : state) (inp : input) : option cause :=
                 end
     | None => None
     end
-  | ERet t r =>
+  | ERet t r _ =>
     match find_op t (s_ops st) with
     | Some o =>
       match o_kind o with
